@@ -129,8 +129,22 @@ def simple_stmts(lang):
             "int a[] = {1, 2};", "p->q(r);", "x++;", "struct s v = {1, {2, 3}};"]
 
 
+PAREN_LITERALS = {
+    "C": ["c = '(';", "if (m == ')') x = 1;", 's = "(";', "q = g('(', x);"],
+    "C++": ["c = '(';", "if (m == ')') x = 1;", 's = ")";', "q = g('(', x);"],
+    "C#": ["c = '(';", 's = ")";', "q = g('(', x);"],
+    "Java": ["c = '(';", 'if (s.equals("(")) x = 1;', 's = ")";'],
+    "JavaScript": ["c = '(';", 's = ")";', "t = `(`;", "q = g('(', x);"],
+    "TypeScript": ["c = '(';", 's = ")";', "t = `)`;", "q = g('(', x);"],
+}
+
+
 def control_heads(lang):
     heads = ["if (x > 1)", "while (x)", "for (i = 0; i < n; i++)", "switch (x)", "do"]
+    if lang in ("C", "C++", "C#", "Java"):
+        heads += ["if (m == '(')", "while (c != ')')"]
+    if lang in ("Java", "C#", "JavaScript", "TypeScript"):
+        heads += ['if (s.equals("("))' if lang == "Java" else 'if (s == "(")']
     if lang != "C":
         heads += ["try"]
     if lang in ("Java", "C#"):
@@ -147,7 +161,9 @@ def gen_body(out, owner, ind, depth, budget):
         noise(out, ind, owner)
         r = rnd.random()
         pad = " " * ind
-        if r < 0.55 or depth > 5:
+        if r < 0.05:
+            out.line((pad, None, False), (rnd.choice(PAREN_LITERALS[lang]), owner, True))
+        elif r < 0.55 or depth > 5:
             out.line((pad, None, False), (maybe_trailing(out, rnd.choice(simple_stmts(lang))), owner, True))
         elif r < 0.62:
             # multi-line statement
@@ -257,6 +273,8 @@ def params_for(out, where):
             ps[-1] = "struct s v = {1, 2}"
         if ps and rnd.random() < 0.15:
             ps[0] = "const char *s"
+        if lang == "C++" and ps and rnd.random() < 0.1:
+            ps[-1] = rnd.choice(["char c = '('", "char d = ')'"])
         return ps
     if lang == "Java":
         ps = [rnd.choice(["int ", "String ", "List<String> ", "final int ", "int[] "]) + n for n in names]
@@ -320,6 +338,8 @@ def gen_func(out, parent, ind, depth, where, body_len=None, style=None):
     lang = out.lang
     rnd = out.rnd
     name = out.fresh()
+    if lang == "C#" and rnd.random() < 0.08:
+        name = "@" + rnd.choice(["event", "class", "fn"]) + name[2:]    # verbatim identifier: ONE Name token `@event1`
     f = Func(len(out.funcs), name, parent)
     out.funcs.append(f)
     pad = " " * ind
@@ -471,7 +491,7 @@ def gen_brace_program(lang, rnd, size=None, sweep=None):
 # --------------------------------------------------------------------------- Python
 
 def py_stmts():
-    return ["x = 1", "g(x)", 'x = "):{(def"', "return x", "y = [1, 2]", "z = {1: 2}", "pass", "x = g(h(1))",
+    return ["p = '('", 'q = ")"', "x = g('(', 1)", "x = 1", "g(x)", 'x = "):{(def"', "return x", "y = [1, 2]", "z = {1: 2}", "pass", "x = g(h(1))",
             "x += 1", "s = 'def f():'", "a, b = b, a", "assert x", "lam = lambda q: q + 1", "print(f'{x}')"]
 
 
@@ -480,6 +500,10 @@ def gen_py_block(out, owner, ind, depth, in_func, allow_defs=True, n=None):
     made = 0
     for _ in range(n or rnd.randint(1, 4)):
         noise(out, ind, owner)
+        if getattr(out, "stubs", False) and rnd.random() < 0.15:
+            # a one-line def (Protocol stub, trivial accessor): a header WITHOUT a suite. Outside the canonical
+            # fragment of C01 (no expectation is derived for it), used by the metamorphic streams only
+            out.line((" " * ind, None, False), (rnd.choice(["def %s(self) -> None: ...", "def %s(): pass", "async def %s(a, b=1): return a"]) % out.fresh("stub"), owner, True))
         r = rnd.random()
         pad = " " * ind
         if r < 0.5 or depth > 5:
@@ -582,8 +606,9 @@ def gen_py_func(out, parent, ind, depth, body_len=None):
     return f
 
 
-def gen_python_program(rnd, size=None, sweep=None):
+def gen_python_program(rnd, size=None, sweep=None, stubs=False):
     out = Out("Python", rnd)
+    out.stubs = stubs
     if sweep is not None:
         gen_py_func(out, None, 0, 0, body_len=sweep)
         return out
@@ -591,7 +616,7 @@ def gen_python_program(rnd, size=None, sweep=None):
     return out
 
 
-def generate(lang, rnd, size=None, sweep=None):
+def generate(lang, rnd, size=None, sweep=None, stubs=False):
     if lang == "Python":
-        return gen_python_program(rnd, size, sweep)
+        return gen_python_program(rnd, size, sweep, stubs)
     return gen_brace_program(lang, rnd, size, sweep)
